@@ -206,6 +206,9 @@ func (g *generator) buildMethod(genMethod *generatedMethod, context map[string]*
 			funcBlock = append(funcBlock, jen.Return().Nil())
 		}
 	} else if def, err := g.extend.Get(ctx.Signature, context); def != nil {
+		if len(genMethod.RawFieldSettings) > 0 {
+			return builder.NewError(fmt.Sprintf("The method delegates to the extend function\n    %s\n\nand therefore these field related settings would be ignored:\n    goverter:%s", def.ID, strings.Join(genMethod.RawFieldSettings, "\n    goverter:")))
+		}
 		jenReturn, err := g.delegateMethod(ctx, def, sourceID)
 		if err != nil {
 			return err
